@@ -71,12 +71,13 @@ def check_level_shape():
 
 
 def handle_shape():
-    """handle: modname = last dotted component; unknown module -> return; for conn, lev in items():
-    if record.levelno >= lev: send_log(conn, modname, LEVEL_NAMES[record.levelno], msg)"""
+    """handle: modname = last dotted component; unknown module -> return;
+    levelname = LEVEL_NAMES.get(record.levelno) or record.levelname.lower()   (repaired by 22ea150: no KeyError);
+    for conn, lev in items(): if record.levelno >= lev: send_log(conn, modname, levelname, msg)"""
     f = find_func(_rlh(), 'handle')
     body = _stmts(f)
-    if len(body) != 3:
-        raise Shape('handle: expected 3 statements')
+    if len(body) != 4:
+        raise Shape('handle: expected 4 statements')
     ok = _norm(body[0]) == "modname=record.name.split('.')[-1]"
     t = body[1]
     ok = ok and isinstance(t, ast.Try) and len(t.body) == 1 \
@@ -84,14 +85,15 @@ def handle_shape():
         and len(t.handlers) == 1 and _norm(t.handlers[0].type) == 'KeyError' \
         and len(t.handlers[0].body) == 1 and isinstance(t.handlers[0].body[0], ast.Return) \
         and t.handlers[0].body[0].value is None
-    loop = body[2]
+    ok = ok and _norm(body[2]) == 'levelname=LEVEL_NAMES.get(record.levelno)orrecord.levelname.lower()'
+    loop = body[3]
     ok = ok and isinstance(loop, ast.For) and _norm(loop.target) in ('(conn,lev)', 'conn,lev') \
         and _norm(loop.iter) == 'subscriptions.items()' and len(loop.body) == 1 and not loop.orelse
     if not ok:
         return 'bool', 'false'
     cond = loop.body[0]
     ok = isinstance(cond, ast.If) and not cond.orelse and len(cond.body) == 1 \
-        and _norm(cond.body[0]).startswith('self.send_log(conn,modname,LEVEL_NAMES[record.levelno],')
+        and _norm(cond.body[0]).startswith('self.send_log(conn,modname,levelname,')
     return 'bool', cbool(ok)
 
 
